@@ -258,4 +258,57 @@ move down by one). -/
 def Raw.shift (i : Nat) (r : Raw) : Raw :=
   { r with pos := r.pos.map fun (ln, c) => (if ln > i then ln + 1 else ln, c) }
 
+/-! ## The documented precedence of the layers that switch a code on or off
+
+command line  >  main configuration file  >  the file it extends  > …  >  built-in default;
+inside one file: the most specific applicable `[[overrides]]` entry (first of equally specific ones),
+else the top-level entry.  (Priority of the file comes before specificity: a top-level entry of the
+main file beats an override of an extended file.) -/
+
+/-- What the command line says about `code`: `-d` beats `-e` beats `--enable-all` /
+`--disable-all`; `none` = nothing. -/
+def Cli.value (c : Cli) (allCodes : List String) (code : String) : Option Bool :=
+  if c.disable.contains code then some false
+  else if c.enable.contains code then some true
+  else if c.enableAll && allCodes.contains code then some true
+  else if !c.enableAll && c.disableAll && allCodes.contains code then some false
+  else none
+
+def lookupFirst (l : List (String × Bool)) (k : String) : Option Bool := (l.find? (·.1 == k)).map (·.2)
+
+/-- The applicable override entries for `code`, as (specificity, value), in file order. -/
+def ovEntries (f : CfgFile) (path : List String) (code : String) : List (Nat × Bool) :=
+  f.overrides.flatMap fun o =>
+    if path.take o.1.length == o.1 then (o.2.filter (·.1 == code)).map fun e => (o.1.length, e.2) else []
+
+/-- The most specific entry, the first one among equally specific ones. -/
+def firstMax : List (Nat × Bool) → Option (Nat × Bool)
+  | [] => none
+  | x :: xs =>
+    match firstMax xs with
+    | none => some x
+    | some m => if m.1 ≤ x.1 then some x else some m
+
+def fileValue (f : CfgFile) (path : List String) (code : String) : Option Bool :=
+  match firstMax (ovEntries f path code) with
+  | some m => some m.2
+  | none => lookupFirst f.top code
+
+def filesValue (path : List String) (code : String) : List CfgFile → Option Bool
+  | [] => none
+  | f :: fs =>
+    match fileValue f path code with
+    | some v => some v
+    | none => filesValue path code fs
+
+/-- The documented precedence. `cmd` = what the command line (the settings dict) says. -/
+def specEnabled (cmd : Option Bool) (files : List CfgFile) (path : List String) (dflt : String → Bool)
+    (code : String) : Bool :=
+  match cmd with
+  | some v => v
+  | none => (filesValue path code files).getD (dflt code)
+
+/-- Override module paths are non-empty (`"a.b".split(".")` never is empty). -/
+def CfgFile.wf (f : CfgFile) : Bool := f.overrides.all fun o => !o.1.isEmpty
+
 end Pya.C11
